@@ -120,10 +120,11 @@ type apiAgg struct {
 	ErrProbes   int
 	Samples     []string
 	NonTrivial  map[string]bool
+	DepthByPS   map[string]int // "ps=<page size> depth=<d>" -> programs
 }
 
 func newAgg() *apiAgg {
-	return &apiAgg{FPs: map[string]int{}, Transitions: map[string]int{}, NonTrivial: map[string]bool{}}
+	return &apiAgg{FPs: map[string]int{}, Transitions: map[string]int{}, NonTrivial: map[string]bool{}, DepthByPS: map[string]int{}}
 }
 
 func (a *apiAgg) add(cs *apiCase, p *gen.Program, nontrivial bool) {
@@ -138,6 +139,9 @@ func (a *apiAgg) add(cs *apiCase, p *gen.Program, nontrivial bool) {
 	}
 	if st.Rebalances > 0 {
 		a.Transitions["rebalance"]++
+	}
+	if len(p.Steps) > 0 && p.Steps[0].Opts != nil {
+		a.DepthByPS[fmt.Sprintf("ps=%d depth=%d", p.Steps[0].Opts.PageSize, st.MaxDepth)]++
 	}
 	a.Steps += st.Steps
 	a.APIChecks += st.APIChecks
@@ -159,22 +163,23 @@ func (a *apiAgg) add(cs *apiCase, p *gen.Program, nontrivial bool) {
 
 func (a *apiAgg) coverage(rule string) map[string]any {
 	return map[string]any{
-		"evaluations":               a.Cases,
-		"distinct_nontrivial":       len(a.NonTrivial),
-		"rule":                      rule,
-		"samples":                   a.Samples,
-		"program_steps":             a.Steps,
-		"api_results_compared":      a.APIChecks,
-		"cursor_calls_compared":     a.CursorCalls,
-		"full_dumps_compared":       a.DumpChecks,
-		"file_images_decoded_by_D":  a.FileDecodes,
-		"tx_check_runs":             a.TxChecks,
-		"commits":                   a.Commits,
-		"rollbacks":                 a.Rollbacks,
-		"reopens":                   a.Reopens,
-		"error_probes":              a.ErrProbes,
-		"programs_per_transition":   a.Transitions,
-		"distinct_fingerprints_all": len(a.FPs),
+		"evaluations":              a.Cases,
+		"distinct_nontrivial":      len(a.NonTrivial),
+		"rule":                     rule,
+		"samples":                  a.Samples,
+		"program_steps":            a.Steps,
+		"api_results_compared":     a.APIChecks,
+		"cursor_calls_compared":    a.CursorCalls,
+		"full_dumps_compared":      a.DumpChecks,
+		"file_images_decoded_by_D": a.FileDecodes,
+		"tx_check_runs":            a.TxChecks,
+		"commits":                  a.Commits,
+		"rollbacks":                a.Rollbacks,
+		"reopens":                  a.Reopens,
+		"error_probes":             a.ErrProbes,
+		"programs_per_transition":  a.Transitions,
+		"programs_by_page_size_and_max_tree_depth": a.DepthByPS,
+		"distinct_fingerprints_all":                len(a.FPs),
 	}
 }
 
